@@ -338,7 +338,9 @@ func (g *ValueGen) Gen(t *Type, depth int) *Val {
 				continue
 			}
 			if cat == "set" {
-				c := EqCanon(e)
+				// elements must differ as wire values: an absent container in a non-optional field and an empty
+				// one, or an optional field equal to its default and an absent one, are the same element
+				c := EqCanon(NormalizeWire(e))
 				if seen[c] || hasNaN(e) {
 					continue
 				}
@@ -357,7 +359,7 @@ func (g *ValueGen) Gen(t *Type, depth int) *Val {
 			if k == nil || e == nil || hasNaN(k) {
 				continue
 			}
-			c := EqCanon(k)
+			c := EqCanon(NormalizeWire(k))
 			if seen[c] {
 				continue
 			}
